@@ -24,9 +24,9 @@ type RVal struct {
 	P     *RVal    // maybe payload, nil = absent
 }
 
-func RNum(x float64) RVal  { return RVal{K: KNum, N: x} }
-func RStr(s string) RVal   { return RVal{K: KStr, S: s} }
-func RBool(b bool) RVal    { return RVal{K: KBool, B: b} }
+func RNum(x float64) RVal    { return RVal{K: KNum, N: x} }
+func RStr(s string) RVal     { return RVal{K: KStr, S: s} }
+func RBool(b bool) RVal      { return RVal{K: KBool, B: b} }
 func RTime(t time.Time) RVal { return RVal{K: KTime, T: t} }
 func RList(xs ...RVal) RVal {
 	if xs == nil {
